@@ -256,6 +256,103 @@ pub fn c13_k_user_icon_keep_or_drop() {
     kani::cover!(n == 300);
 }
 
+/// The same contract on NON-ASCII text: the limit is in *bytes*, not characters.  The text is k
+/// two-byte characters (U+00E9) followed by at most one ASCII byte, 0..=300 bytes in all; at most
+/// 128 bytes => kept verbatim, more => absent; never an error, never a panic.
+#[kani::proof]
+#[kani::unwind(302)]
+pub fn c13_k_user_icon_multibyte_keep_or_drop() {
+    let mut buf = [0u8; 300];
+    let mut i = 0;
+    while i < 300 {
+        buf[i] = if i % 2 == 0 { 0xC3 } else { 0xA9 };
+        i += 1;
+    }
+    let k: usize = kani::any();
+    kani::assume(k <= 149);
+    let tail: bool = kani::any();
+    let n = 2 * k + if tail { 1 } else { 0 };
+    if tail {
+        buf[2 * k] = b'x';
+    }
+    let s = unsafe { core::str::from_utf8_unchecked(&buf[..n]) };
+    let d = BorrowedStrDeserializer::<ValueError>::new(s);
+    let r: Result<Option<String<128>>, ValueError> =
+        deserialize_from_str_and_skip_if_too_long::<_, 128>(d);
+    match r {
+        Ok(Some(kept)) => {
+            assert!(n <= 128, "C13: an over-long icon was kept");
+            assert!(kept.len() == n, "C13: icon shortened");
+            let j: usize = kani::any();
+            kani::assume(j < n);
+            assert!(kept.as_bytes()[j] == buf[j], "C13: icon altered");
+        }
+        Ok(None) => assert!(n > 128, "C13: an icon that fits was dropped"),
+        Err(_) => panic!("C13: icon made the request fail"),
+    }
+    kani::cover!(n == 128);
+    kani::cover!(n == 129);
+    kani::cover!(n == 130);
+}
+
+// ------------------------------------------------------------------ names (optional, truncated)
+/// A deserializer holding an optional text: `deserialize_option` reports it as `visit_some(text)` /
+/// `visit_none()`, which is what every self-describing decoder does for an optional member.
+struct OptText<'de>(Option<&'de str>);
+
+impl<'de> serde::Deserializer<'de> for OptText<'de> {
+    type Error = ValueError;
+    fn deserialize_any<V: serde::de::Visitor<'de>>(self, v: V) -> Result<V::Value, ValueError> {
+        match self.0 {
+            Some(s) => v.visit_borrowed_str(s),
+            None => v.visit_none(),
+        }
+    }
+    fn deserialize_option<V: serde::de::Visitor<'de>>(self, v: V) -> Result<V::Value, ValueError> {
+        match self.0 {
+            Some(s) => v.visit_some(BorrowedStrDeserializer::<ValueError>::new(s)),
+            None => v.visit_none(),
+        }
+    }
+    serde::forward_to_deserialize_any! {
+        bool i8 i16 i32 i64 i128 u8 u16 u32 u64 u128 f32 f64 char str string bytes byte_buf unit
+        unit_struct newtype_struct seq tuple tuple_struct map struct enum identifier ignored_any
+    }
+}
+
+/// `deserialize_from_str_and_truncate::<_, 64>` (rp.name, user.name, user.displayName): an absent
+/// name stays absent; a present name stays PRESENT — the empty text included, which the encoder
+/// emits as a zero-length text string (C15: absent and empty are different encodings) — and is the
+/// text itself when it fits, its first 64 bytes otherwise (ASCII content, 0..=70 bytes).
+#[kani::proof]
+#[kani::unwind(72)]
+pub fn c15_k_name_present_stays_present() {
+    let mut buf: [u8; 70] = kani::any();
+    ascii(&mut buf);
+    let n: usize = kani::any();
+    kani::assume(n <= 70);
+    let present: bool = kani::any();
+    let s = unsafe { core::str::from_utf8_unchecked(&buf[..n]) };
+    let d = OptText(if present { Some(s) } else { None });
+    let r: Result<Option<String<64>>, ValueError> = deserialize_from_str_and_truncate::<_, 64>(d);
+    match r {
+        Ok(Some(t)) => {
+            assert!(present, "C15: an absent name was decoded as present");
+            let want = if n <= 64 { n } else { 64 };
+            assert!(t.len() == want, "C13/C15: name length");
+            let j: usize = kani::any();
+            if j < want {
+                assert!(t.as_bytes()[j] == buf[j], "C13: name altered");
+            }
+        }
+        Ok(None) => assert!(!present, "C15: a present name (possibly empty) was decoded as absent"),
+        Err(_) => panic!("C13: a text name made the request fail"),
+    }
+    kani::cover!(present && n == 0);
+    kani::cover!(present && n == 70);
+    kani::cover!(!present);
+}
+
 /// A relying-party icon (or legacy url) of any length is accepted and discarded.
 #[kani::proof]
 #[kani::unwind(302)]
